@@ -89,7 +89,7 @@ def materialise_faults(sched, res):
 
 def signature(sched, res):
     w = sched["world"]
-    sig = [w["mode"], w["model"]["kind"], tuple(s["cls"] for s in w["solvers"]),
+    sig = [sched.get("template"), w["mode"], w["model"]["kind"], tuple(s["cls"] for s in w["solvers"]),
            len({s["disc"] for s in w["solvers"]})]
     for op, r in zip(sched["ops"], res.records):
         if op["op"] == "step":
@@ -234,6 +234,12 @@ def _account(out, stats, sched, res, ex, tag):
         stats["probe:interleaving over a shared discretisation"] += 1
     if nfull >= 1 and (nside >= 1 or ncalls >= 2 or fired >= 1):
         nontrivial = True
+    if res.globals_changed:
+        stats["probe:library-global mutable state changed by a run (restored)"] += 1
+        for g in res.globals_changed[:3]:
+            stats["globals:" + g] += 1
+    if sched.get("template"):
+        stats["probe:template " + sched["template"]] += 1
     stats["runs:" + tag] += 1
     stats["full_steps"] += nfull
     stats["side_steps"] += nside
